@@ -13,7 +13,7 @@ use super::common::*;
 pub struct C07Family;
 pub static C07: C07Family = C07Family;
 
-const STATUSES: [u8; 12] = [0x00, 0x01, 0x2E, 0x27, 0x7F, 0x28, 0xF0, 0xE0, 0xDF, 0x2F, 0x36, 0x19];
+const STATUSES: [u8; 13] = [0x00, 0x01, 0x2E, 0x27, 0x7F, 0x28, 0xF0, 0xE0, 0xDF, 0x2F, 0x36, 0x19, 0x06];
 
 fn rp_index_for(effective: &str, r: &mut Rng) -> u8 {
     let idx: Vec<u8> = RPS
@@ -211,7 +211,15 @@ impl Family for C07Family {
             } else {
                 r.below(256) as u8
             };
-            out.push(with(&|op| op.faults = vec![Fault { seam: *kind, nth: *nth, status }], "err1"));
+            out.push(with(&|op| op.faults = vec![Fault { seam: *kind, nth: *nth, status, sticky: false }], "err1"));
+        }
+        // every call of one kind keeps failing (a store that is down, a retry loop's worst case)
+        for kind in [SeamKind::Find, SeamKind::Save, SeamKind::Update] {
+            if calls.iter().any(|(k, _)| *k == kind) {
+                for status in [0x06u8, STATUSES[(base.index as usize) % STATUSES.len()]] {
+                    out.push(with(&|op| op.faults = vec![Fault { seam: kind, nth: 0, status, sticky: true }], "err-sticky"));
+                }
+            }
         }
         // cancellation after every possible number of polls
         for k in 0..=k_polls {
@@ -227,8 +235,8 @@ impl Family for C07Family {
                 out.push(with(
                     &|op| {
                         op.faults = vec![
-                            Fault { seam: a.0, nth: a.1, status: sa },
-                            Fault { seam: b.0, nth: b.1, status: sb },
+                            Fault { seam: a.0, nth: a.1, status: sa, sticky: false },
+                            Fault { seam: b.0, nth: b.1, status: sb, sticky: false },
                         ];
                         op.cancel_after = cancel;
                     },
@@ -254,7 +262,7 @@ impl Family for C07Family {
                 let op = &mut cc.actors[0].ops[t_idx];
                 if !calls.is_empty() && r.bool() {
                     let a = *r.pick(&calls);
-                    op.faults = vec![Fault { seam: a.0, nth: a.1, status: *r.pick(&STATUSES) }];
+                    op.faults = vec![Fault { seam: a.0, nth: a.1, status: *r.pick(&STATUSES), sticky: false }];
                 } else {
                     op.cancel_after = Some(r.below(u64::from(k_polls) + 4) as u32);
                 }
@@ -343,10 +351,17 @@ impl Family for C07Family {
                     }
                 }
             } else if is_authentication(kind) {
-                let found_first = rec.events_of(o.actor, o.idx).find_map(|e| match &e.ev {
-                    Ev::FindRet { result: Ok(v), .. } => v.first().cloned(),
-                    _ => None,
-                });
+                let found: Vec<_> = rec
+                    .events_of(o.actor, o.idx)
+                    .filter_map(|e| match &e.ev {
+                        Ev::FindRet { result: Ok(v), .. } => Some(v.clone()),
+                        _ => None,
+                    })
+                    .flatten()
+                    .collect();
+                // a rewrite of a record with identical content changes nothing
+                let app_all = app.clone();
+                let app: Vec<_> = app.iter().filter(|(_, save, cred, prev)| *save || prev.as_ref() != Some(*cred)).cloned().collect();
                 if err || cancelled {
                     let fine = match app.as_slice() {
                         [] => !single || o.before == o.after,
@@ -356,7 +371,7 @@ impl Family for C07Family {
                                 && cred.counter == prev.counter.map(|c| c.wrapping_add(1))
                                 && prev.counter != Some(u32::MAX)
                                 && **cred == prev.with_counter(cred.counter);
-                            let selected = found_first.as_ref().is_some_and(|f| f.id == cred.id);
+                            let selected = found.iter().any(|f| f.id == cred.id);
                             let untouched = !single
                                 || (o.before.len() == o.after.len()
                                     && o.before.iter().all(|b| b.id == cred.id || o.after.contains(b)));
@@ -370,16 +385,13 @@ impl Family for C07Family {
                 } else if ok && !matches!(kind, OpKind::U2fAuthenticate { .. }) {
                     let rid = returned_id(o);
                     let reported = reported_counter(o);
-                    let had_counter = found_first
-                        .as_ref()
-                        .filter(|f| Some(&f.id) == rid.as_ref())
-                        .map(|f| f.counter.is_some());
+                    let had_counter = found.iter().find(|f| Some(&f.id) == rid.as_ref()).map(|f| f.counter.is_some());
                     if had_counter == Some(true) {
-                        let accepted = app.iter().any(|(e, save, cred, _)| {
+                        let accepted = app_all.iter().any(|(e, save, cred, _)| {
                             !*save && e.seq < o.return_seq && Some(&cred.id) == rid.as_ref() && cred.counter == reported
                         });
                         if !accepted {
-                            j.fail("auth-ok-counter-not-stored", format!("authentication a{}#{} returned counter {:?} for {:?} but the store never accepted that value before the response; writes {:?}", o.actor, o.idx, reported, rid.map(|i| crate::model::hex(&i)), app.iter().map(|a| a.2).collect::<Vec<_>>()));
+                            j.fail("auth-ok-counter-not-stored", format!("authentication a{}#{} returned counter {:?} for {:?} but the store never accepted that value before the response; writes {:?}", o.actor, o.idx, reported, rid.map(|i| crate::model::hex(&i)), app_all.iter().map(|a| a.2).collect::<Vec<_>>()));
                         }
                     }
                 }
